@@ -31,6 +31,10 @@ def install_schema(reg: Registry):
         'next_node_id': T.int, 'next_attacker_id': T.int,
     })
     s.add_class('Asset', {'name': T.str, 'id': T('int', opt=True), 'type': T.str})
+    # the parts of the instance model the attack-graph side reads (model.py has its own contract file)
+    s.add_class('EPTuple', {'t0': Obj('Asset'), 't1': List(T.str)})          # (asset, [step names]) entry-point tuple
+    s.add_class('AttackerAttachment', {'name': T.str, 'entry_points': List(Obj('EPTuple')), 'id': T('int', opt=True)})
+    s.add_class('Model', {'name': T.str, 'attackers': List(Obj('AttackerAttachment')), 'assets': List(Obj('Asset'))})
 
     def dflt_none(ex, st): return SV_NONE
     def dflt_list(elem): return lambda ex, st: ex.new_list(st, elem)
@@ -46,6 +50,10 @@ def install_schema(reg: Registry):
         ('name', None), ('entry_points', dflt_list(Obj(NODE))), ('reached_attack_steps', dflt_list(Obj(NODE))),
         ('id', dflt_none)])
     reg.classes[GRAPH] = ClassInfo(GRAPH, 'maltoolbox.attackgraph.attackgraph', False)
+    reg.classes['EPTuple'] = ClassInfo('EPTuple', None, False, tuple_fields=['t0', 't1'])
+    reg.classes['AttackerAttachment'] = ClassInfo('AttackerAttachment', 'maltoolbox.model', False)
+    reg.classes['Model'] = ClassInfo('Model', 'maltoolbox.model', False)
+    reg.classes['Asset'] = ClassInfo('Asset', None, False)
     reg.add_exception('AttackGraphException')
     reg.add_exception('AttackGraphStepExpressionError')
 
